@@ -1,8 +1,10 @@
 #!/venv/bin/python
-"""Apply a textual mutation (or a patch file) to /repo, run checks, revert.  Development aid only.
-usage: trymut.py [--tests] (--patch FILE | FILE OLD NEW) -- C05 [C11 ...]
+"""Apply a textual mutation (or a patch file) to a scratch worktree of /repo, run checks against it, remove it.
+Development aid only; /repo itself is never touched, evidence/ is not overwritten.
+usage: trymut.py [--tests] (--patch FILE | FILE OLD NEW [FILE OLD NEW ...]) -- C05 [C11 ...]
+env TIER=quick|thorough
 """
-import subprocess, sys, os
+import subprocess, sys, os, tempfile, shutil
 args = sys.argv[1:]
 run_tests = False
 if args and args[0] == "--tests":
@@ -12,21 +14,28 @@ spec, checks = args[:i], args[i + 1:]
 tier = os.environ.get("TIER", "quick")
 def sh(cmd, **kw):
     return subprocess.run(cmd, shell=True, **kw)
-assert sh("git -C /repo diff --quiet").returncode == 0, "/repo dirty"
+wt = tempfile.mkdtemp(prefix="mut-", dir="/tmp")
+os.rmdir(wt)
+evd = tempfile.mkdtemp(prefix="mutev-", dir="/tmp")
+rc = 0
 try:
+    assert sh("git -C /repo worktree add -q --detach %s HEAD" % wt).returncode == 0
     if spec[0] == "--patch":
-        assert sh("git -C /repo apply %s" % spec[1]).returncode == 0
+        assert sh("git -C %s apply %s" % (wt, os.path.abspath(spec[1]))).returncode == 0, "patch does not apply"
     else:
-        path, old, new = spec
-        p = os.path.join("/repo", path)
-        s = open(p).read()
-        assert s.count(old) >= 1, "pattern not found"
-        open(p, "w").write(s.replace(old, new, 1))
-    sh("git -C /repo diff --stat")
+        while spec:
+            path, old, new = spec[:3]; spec = spec[3:]
+            p = os.path.join(wt, path)
+            s = open(p).read()
+            assert s.count(old) >= 1, "pattern not found in %s" % path
+            open(p, "w").write(s.replace(old, new, 1))
+    sh("git -C %s diff --stat | cat" % wt)
     if run_tests:
-        r = sh("cd /repo && /venv/bin/python -m pytest -q -p no:cacheprovider --continue-on-collection-errors 2>&1 | tail -3")
+        sh("cd %s && /venv/bin/python -m pytest -q -p no:cacheprovider --continue-on-collection-errors 2>&1 | tail -2" % wt)
     for c in checks:
-        r = sh("cd /verif && ./check %s --tier %s 2>&1 | tail -8" % (c, tier))
+        r = sh("cd /verif && VERIF_REPO=%s VERIF_EVIDENCE_DIR=%s VERIF_REPLAY_DIR=%s ./check %s --tier %s 2>&1 | tail -%s"
+               % (wt, evd, evd, c, tier, os.environ.get("TAIL", "8")))
 finally:
-    sh("git -C /repo checkout -- . && git -C /repo status --short")
-    sh("git -C /verif checkout -- evidence 2>/dev/null")
+    sh("git -C /repo worktree remove --force %s; git -C /repo worktree prune" % wt)
+    shutil.rmtree(evd, ignore_errors=True)
+    shutil.rmtree(wt, ignore_errors=True)
